@@ -162,7 +162,7 @@ class DhtmlxGantt:
             },
             ensure_ascii=False,
             indent=2
-        ).replace('</', '<\\/')  # "</script>" inside a string must not end the embedding <script> element
+        ).replace('<', '\\u003c')  # "</script>", "<!--" or "<script" inside a string must not steer the HTML tokenizer
 
     def to_html(self):
 
